@@ -58,6 +58,9 @@ class ProgProp(Prop):
     want_mc = None                   # None: mix; True/False
     asan_fraction = 0.0              # thorough: fraction of programs also built with clang++ ASan+UBSan
     wrapper_stream = None            # (quick, thorough) sizes of the multi-client wrapper text stream
+    routing_stream = (240, 6000)     # (quick, thorough) sizes of the text-level routing stream (op build.route)
+    routing_mc_fraction = 0.4
+    route_clause_filter = None       # None: every routing clause is this property's; else a predicate
 
     def add_wrapper_stream(self, ctx, res):
         if not self.wrapper_stream:
@@ -90,22 +93,31 @@ class ProgProp(Prop):
                 c = G.gen_same_spelling_prog(rng)
             else:
                 c = G.gen_case(rng, want_mc=want_mc)
-            if not c['_info']['comp_ns']:
+            if not self.compilable(c, repair=True):
                 continue
-            mc = c['cfg']['multiclient']
-            if mc:
-                p, itf = X.port_events(c['_info'], mc['port'])
-                rel = next(e for e in itf['events'] if e['name'] == mc['release'])
-                if rel['_reply']['kind'] != 'void':
-                    voids = [e for e in itf['events'] if e['dir'] == 'in' and e['_reply']['kind'] == 'void' and e['name'] != mc['claim']]
-                    if not voids:
-                        continue
-                    mc['release'] = voids[0]['name']
-            elif self.want_mc:
+            if not c['cfg']['multiclient'] and self.want_mc:
                 continue
             if self.accept_case(c):
                 return c
         return c
+
+    @staticmethod
+    def compilable(c, repair=False):
+        """is the case inside the domain the mock programs cover (named namespace: D-8, void release: K-5)?"""
+        if not c['_info']['comp_ns']:
+            return False
+        mc = c['cfg']['multiclient']
+        if mc:
+            p, itf = X.port_events(c['_info'], mc['port'])
+            rel = next((e for e in itf['events'] if e['name'] == mc['release']), None)
+            if rel is None:
+                return False
+            if rel['_reply']['kind'] != 'void':
+                voids = [e for e in itf['events'] if e['dir'] == 'in' and e['_reply']['kind'] == 'void' and e['name'] != mc['claim']]
+                if not voids or not repair:
+                    return False
+                mc['release'] = voids[0]['name']
+        return True
 
     def accept_case(self, c):
         return True
@@ -127,12 +139,21 @@ class ProgProp(Prop):
         rng, tier = ctx['rng'], ctx['tier']
         n = self.n_programs[0] if tier == 'quick' else scale(self.n_programs[1])
         cases = [self.gen_case(rng) for _ in range(n)]
+        route = None
+        if self.routing_stream:
+            nr = self.routing_stream[0] if tier == 'quick' else scale(self.routing_stream[1])
+            route = text_routing_stream(rng, nr, self.routing_mc_fraction if self.want_mc is None else (1.0 if self.want_mc else 0.0),
+                                        self.route_clause_filter)
+            # cases on which the generated text is not what the model says (or breaks the routing table) are
+            # compiled and scripted first: that is the search for a concrete failing trace
+            focus = [c for c in route['focus'] if self.compilable(c) and self.accept_case(c)][:6]
+            cases = focus + cases[:max(1, len(cases) - len(focus))]
         if self.want_mc is not True:
             # at least a fifth of the programs: one spelling, a different extern per namespace
             for i in range(max(3, n // 5)):
                 c = G.gen_same_spelling_prog(rng)
                 if self.accept_case(c):
-                    cases[i] = c
+                    cases[-1 - i] = c
         irs = [X.model_ir(c) for c in cases]
         t0 = time.time()
         progs = X.build_programs(cases, irs)
@@ -176,12 +197,18 @@ class ProgProp(Prop):
                     shapes.append(case_hash([c['src'], c['cfg'], s]))
             finally:
                 p.cleanup()
+        if route:
+            failures += route['failures']
+            disagreements += route['disagreements']
+            shapes += route['shapes']
+            nscripts += len(route['shapes'])
         return self.add_wrapper_stream(ctx, {
                 'failures': failures, 'disagreements': disagreements, 'evaluations': nscripts, 'shapes': shapes,
                 'known_hits': known_hits,
                 'coverage': {'programs': len(cases), 'programs_failed_to_build': build_failed, 'scripts': nscripts,
                              'script_ops': nops, 'traces_validated_against_impl': nscripts,
-                             'compile_wall_s': round(time.time() - t0, 1)}})
+                             'compile_wall_s': round(time.time() - t0, 1),
+                             **(route['coverage'] if route else {})}})
 
 
 # ---------------------------------------------------------------------------------------------
@@ -254,3 +281,45 @@ def mc_wrapper_stream(rng, n):
                 failures.append({'case': s, 'impl': {'wrappers': wrapper_bodies(cc)}, 'model': None, 'failed': failed,
                                  'noshrink': True})
     return failures, disagreements, shapes, {'wrapper_cases': len(cases), 'wrapper_cases_valued_release': valued}
+
+
+def text_routing_stream(rng, n, mc_fraction, clause_filter=None):
+    """n generated cases through the real Builder and the driver op `build.route`: full-text correspondence with
+    the model, and the routing table the Dezyne model + configuration demand evaluated (in Lean,
+    DznModel.SpecRouting) on the assignments read back from the IMPLEMENTATION's source text (DznModel.IrParse)"""
+    cases = [G.gen_case(rng, want_mc=rng.random() < mc_fraction) for _ in range(n)]
+    stripped = [dict(X.strip(c), op='build.route') for c in cases]
+    impls = [G.build_impl(s) for s in stripped]
+    outs = run_driver([dict(s, impl=i) for s, i in zip(stripped, impls)]) if stripped else []
+    failures, disagreements, shapes, focus = [], [], [], []
+    hist = {'mc': 0, 'ok': 0, 'mc_not_first': 0, 'mc_only_mts_provides': 0, 'two_plus_mts_provides': 0}
+    for c, s, impl, o in zip(cases, stripped, impls, outs):
+        shapes.append(case_hash(['route', s['src'], s['cfg']]))
+        mc = s['cfg']['multiclient']
+        prov = [p for p in c['_info']['ports'] if p['dir'] == 'provides']
+        hist['mc'] += bool(mc)
+        hist['ok'] += 'ok' in impl
+        if mc and prov:
+            hist['mc_not_first'] += prov[0]['name'] != mc['port']
+            hist['mc_only_mts_provides'] += len(prov) == 1
+        hist['two_plus_mts_provides'] += len(prov) >= 2 and 'all' in json.dumps(s['cfg']['ports']['pmts'])
+        rec = {'case': s, 'impl': impl if 'err' in impl else {'ok': 'files (see replay by re-running)'}, 'model': None,
+               'failed': [], 'noshrink': True}
+        if o.get('fatal'):
+            rec['fatal'] = o['fatal']
+            disagreements.append(rec)
+            focus.append(c)
+            continue
+        failed = [f for f in o.get('failed', []) if clause_filter is None or clause_filter(f)]
+        if failed:
+            rec['failed'] = failed
+            rec['impl'] = impl
+            failures.append(rec)
+            focus.append(c)
+        elif canon(impl) != canon(o.get('model')) or not o.get('parser_ok', True):
+            rec['impl'] = impl
+            rec['model'] = o.get('model')
+            disagreements.append(rec)
+            focus.append(c)
+    return {'failures': failures, 'disagreements': disagreements, 'shapes': shapes, 'focus': focus,
+            'coverage': {'routing_cases': len(cases), 'routing_histogram': hist}}
